@@ -3,6 +3,11 @@
   /repo/internal/note.c (all of it) and of the path of /repo/internal/wait.c that
   `nsync_note_wait` takes (`nsync_wait_n` with one note object).
 
+  The model follows note.c AFTER the repair of defect F5 (/verif/fixes/F5/note_fix.diff):
+  `nsync_note_new` takes the minimum of `abs_deadline` and `parent->expiry_time` whether or not the
+  new note starts out notified, and a note created under an already notified parent gets its
+  `notified` flag set (note.c/7) instead of a zero `expiry_time`.
+
   Granularity: one step = one atomic operation on `note<k>.notified` / `nw<r>.waiting`, one lock
   operation on a note's mutex, one clock read, one semaphore operation of a waiter record, one
   `malloc`/`free`, one API boundary, or one `tick`.  The plain (non-atomic) updates of the forest
@@ -73,15 +78,17 @@ inductive Site
   | dlLd2
   /-- note.c/6 nsync_note_new: NOTIFIED_TIME (parent) -/
   | newLd
-  /-- note.c/7 note_enqueue: NOTIFIED_TIME (n) -/
+  /-- note.c/7 nsync_note_new: ATM_STORE_REL (&n->notified, 1) (parent already notified) -/
+  | newSt
+  /-- note.c/8 note_enqueue: NOTIFIED_TIME (n) -/
   | enqLd
-  /-- note.c/8 note_enqueue: ATM_STORE (&nw->waiting, 1) -/
+  /-- note.c/9 note_enqueue: ATM_STORE (&nw->waiting, 1) -/
   | enqSt1
-  /-- note.c/9 note_enqueue: ATM_STORE (&nw->waiting, 0) -/
+  /-- note.c/10 note_enqueue: ATM_STORE (&nw->waiting, 0) -/
   | enqSt0
-  /-- note.c/10 note_dequeue: NOTIFIED_TIME (n) -/
+  /-- note.c/11 note_dequeue: NOTIFIED_TIME (n) -/
   | deqLd
-  /-- note.c/11 note_dequeue: ATM_STORE (&nw->waiting, 0) -/
+  /-- note.c/12 note_dequeue: ATM_STORE (&nw->waiting, 0) -/
   | deqSt
   /-- wait.c/0 nsync_wait_n: ATM_STORE (&nw[i].waiting, 0) -/
   | waitInit
@@ -154,9 +161,11 @@ inductive CPos
   | waitCall | waitRet (kept : Bool)
   deriving DecidableEq, Repr
 
-/-- Positions inside the parent section of `nsync_note_new` (note.c:179-189). -/
+/-- Positions inside the parent section of `nsync_note_new` (the critical section of
+    `parent->note_mu`); `st` = the parent was found notified, the store to the new note's flag is
+    next. -/
 inductive NewPos
-  | lockCall | lockRet | ld | unlockCall | unlockRet
+  | lockCall | lockRet | ld | st | unlockCall | unlockRet
   deriving DecidableEq, Repr
 
 /-- Positions inside `nsync_note_free`. -/
@@ -326,12 +335,17 @@ structure State where
   notifyCalled : NoteId → Bool
   /-- ghost: the `abs_deadline` passed to `nsync_note_new` -/
   ownDl : NoteId → Dl
+  /-- ghost: the `parent` passed to the `nsync_note_new` call that created the note (the
+      creation-time parent; `nsync_note_free` of that parent later re-parents the note in the real
+      forest, the ghost is never changed) -/
+  cparent : NoteId → Option NoteId
   /-- ghost: the note itself and every note on the path from its intended parent to the root, at
       creation -/
   ancEver : NoteId → List NoteId
   /-- ghost: minimum of the deadlines on that path -/
   pathMin : NoteId → Dl
-  /-- ghost: `nsync_note_new` found the note (or its parent) notified already -/
+  /-- ghost: `nsync_note_new` found the note (or its parent) notified already: the note was born
+      notified and never linked under its parent -/
   bornNotified : NoteId → Bool
   /-- ghost: per thread, see `Obs.after` -/
   after : Tid → Bool
@@ -358,6 +372,7 @@ def init : State where
   published := fun _ => false
   notifyCalled := fun _ => false
   ownDl := fun _ => none
+  cparent := fun _ => none
   ancEver := fun _ => []
   pathMin := fun _ => none
   bornNotified := fun _ => false
@@ -459,6 +474,7 @@ def State.allocNote (s : State) (k : NoteId) (par : Option NoteId) (dl : Dl) : S
   { s with
     notes := upd s.notes k { NoteRec.blank with expiry := dl, allocated := true }
     ownDl := upd s.ownDl k dl
+    cparent := upd s.cparent k par
     ancEver := upd s.ancEver k (k :: s.ancOf par)
     pathMin := upd s.pathMin k (s.minOf dl par) }
 
@@ -472,7 +488,8 @@ def nextAfter : List NoteId → NoteId → Option NoteId
   | x :: xs, c => if x = c then xs.head? else nextAfter xs c
 
 /-- The note is notified as far as the API is concerned: the flag is set, or its expiry time is
-    zero (then `NOTIFIED_TIME` is zero although the flag stays 0). -/
+    zero (a zero deadline on the path to the root: `NOTIFIED_TIME` is zero although the flag may
+    stay 0). -/
 def State.Notified (s : State) (n : NoteId) : Prop :=
   (s.notes n).notified = true ∨ (s.notes n).expiry = some 0
 
@@ -510,9 +527,21 @@ def bornNow (nt : Dl) : DK → Bool
   | .newSelf _ _ => decide (¬ nt.pos)
   | _ => false
 
-/-- `nsync_note_notified_deadline_ (n)` returned `nt` to its caller `k`. -/
+/-- `nsync_note_new` after `notified = nsync_note_is_notified (n)`: the expiry time of the new note
+    is the minimum of `abs_deadline` and the parent's expiry time (itself the minimum over the
+    parent's path), whether or not the note starts out notified:
+    `if (parent != NULL && nsync_time_cmp (parent->expiry_time, abs_deadline) < 0)
+       set_expiry_time (n, parent->expiry_time);`
+    (`parent->expiry_time` is read without the parent's lock: it is constant once published). -/
+def newExpiry (s : State) (n : NoteId) : DK → State
+  | .newSelf (some p) dl => s.setExpiry n (Dl.min dl (s.notes p).expiry)
+  | _ => s
+
+/-- `nsync_note_notified_deadline_ (n)` returned `nt` to its caller `k` (and the plain code of the
+    caller that follows: `newExpiry`). -/
 def afterDeadline (s : State) (t : Tid) (n : NoteId) (nt : Dl) (k : DK) : State :=
-  (if bornNow nt k then s.markBorn n else s).setPc t (afterDeadlinePc n nt k)
+  (if bornNow nt k then (newExpiry s n k).markBorn n else newExpiry s n k).setPc t
+    (afterDeadlinePc n nt k)
 
 /-- `notify (n)` returned to its caller. -/
 def afterNotify (s : State) (t : Tid) (n : NoteId) : NK → State
@@ -668,11 +697,8 @@ def stepLd (s : State) (t : Tid) (site : Site) (ord : Ord) (k : NoteId) (obs : N
     else .ok (childReturn s t f rest top)
   | .newP .ld n p dl =>
     need (site = .newLd ∧ k = p) "ld: expected note.c/6 on the parent" <|
-    let pt := (s.notes p).ntime
-    let s1 := if Dl.lt pt dl then s.setExpiry n pt else s
-    let s2 := if pt.pos then s1.link n p
-              else s1.markBorn n
-    .ok (s2.setPc t (.newP .unlockCall n p dl))
+    if (s.notes p).ntime.pos then .ok ((s.link n p).setPc t (.newP .unlockCall n p dl))
+    else .ok (s.setPc t (.newP .st n p dl))
   | .wt .eLd n wdl r =>
     need (site = .enqLd ∧ k = n) "ld: expected note.c/7 on the note waited for" <|
     if (s.notes n).ntime.pos then
@@ -696,6 +722,11 @@ def stepStNote (s : State) (t : Tid) (site : Site) (ord : Ord) (k : NoteId) (new
       "st: expected note.c/1: release store of 1 to the current note" <|
     need (obs = flagVal (s.notes k).notified) "st: previous value differs from the model" <|
     .ok (childWakeNext (s.setNotified k) t f rest top)
+  | .newP .st n p dl =>
+    need (site = .newSt ∧ ord = .rel ∧ k = n ∧ new = 1)
+      "st: expected note.c/7: release store of 1 to the note being created" <|
+    need (obs = flagVal (s.notes k).notified) "st: previous value differs from the model" <|
+    .ok (((s.setNotified n).markBorn n).setPc t (.newP .unlockCall n p dl))
   | .idle => .error "st: notified word written by a thread outside any note call"
   | _ => .error "st: no store to a notified word at this point"
 
@@ -1056,11 +1087,16 @@ def Reachable (s : State) : Prop :=
     code folded into it.  Walking or editing the children list of `n` dereferences the
     `parent_child_link` embedded in the children of `n`, so those count as touched too. -/
 def touches (s : State) : Event → List NoteId
-  | .skip | .tick _ | .now _ _ | .waitnCall _ _ | .waitnRet _ _ | .pdEnter _ _ _ | .pdRet _ _ _
+  | .skip | .tick _ | .waitnCall _ _ | .waitnRet _ _ | .pdEnter _ _ _ | .pdRet _ _ _
   | .call _ _ | .stW _ _ _ _ _ _ => []
+  | .now t _ =>
+    match s.pc t with
+    | .dl .now n _ (.newSelf (some p) _) => [n, p]
+    | _ => []
   | .ld t _ _ k _ =>
     match s.pc t with
     | .newP .ld n p _ => k :: n :: p :: (s.notes p).children
+    | .dl .ld1 n _ (.newSelf (some p) _) => [k, n, p]
     | _ => [k]
   | .stNote _ _ _ k _ _ => k :: (s.notes k).children
   | .lockCall _ k | .unlockCall _ k | .tryCall _ k | .waitCall _ k => [k]
@@ -1078,6 +1114,8 @@ def touches (s : State) : Event → List NoteId
   | .unlockRet t =>
     match s.pc t with
     | .nfy .unlockPRet n _ _ | .fr .unlockPRet n _ _ _ => [n]
+    | .dl .unlockRet n _ (.newSelf (some p) _)
+    | .nfy .unlockRet n _ (.ofDeadline (.newSelf (some p) _)) => [n, p]
     | .fr .unlockChildRet n _ _ _ => n :: (s.notes n).children
     | .chd (.unlockChildRet _) (f :: _) _ => f.note :: (s.notes f.note).children
     | _ => []
